@@ -683,3 +683,116 @@ def mon_reply(case_line, impl_out):
                 if 'appears twice' not in str(e) and 'empty topic' not in str(e):
                     out.append(V('reply publication does not parse: %s' % e))
     return out
+
+
+# ---------------------------------------------------------------- C10: keep-alive timing
+RTT_MS = 5000
+
+
+def mon_c10(case_line, acts):
+    """virtual-time monitor.  Premises of the property made explicit: the gap is measured while the application is
+    inside poll()/recv() (an Advance action = the application is away: measurement restarts), from the end of a
+    successful connect() (the keep-alive is known from the CONNACK on), on a transport on which no write or flush
+    failed, returned zero or was dropped."""
+    out = []
+    now = 0
+    live = False
+    tainted = True
+    K = 0
+    last = None            # time of the last completed client packet, None = not measuring
+    outstanding = None     # flush time of the PINGREQ still awaiting its PINGRESP
+    wire = bytearray()
+    inb = bytearray()
+    wpos = ipos = 0
+    unflushed = []         # packet types fully written but not yet flushed
+    for i, a in enumerate(acts):
+        if a.code == 0:
+            wire = bytearray(); inb = bytearray(); wpos = ipos = 0; unflushed = []
+            tainted = False; outstanding = None; last = None; live = False
+        if a.code == 9:
+            last = None
+        cause = None       # a reason other than keep-alive for this action to report Disconnected
+        if not live:
+            cause = 'dead'
+        for e in a.events:
+            if e[0] == 't':
+                t = e[1]
+                if a.code in (6, 7) and live and not tainted:
+                    if outstanding is not None and now >= outstanding + RTT_MS:
+                        # the client was serviced at `now`, at or past the armed instant, and went on waiting
+                        out.append(V('PINGREQ completed at %d ms unanswered, client serviced at %d ms and still waiting '
+                                     '(bound %d ms)' % (outstanding, now, RTT_MS)))
+                        tainted = True
+                    elif K > 0 and last is not None and now - last > K:
+                        # serviced at `now`, more than K after the last completion, and waiting on (a wait that merely
+                        # ends past last + K is not counted: the runner's 100 ms re-poll granularity is not the client's)
+                        cls = 'K10' if (K < RTT_MS and outstanding is not None) else None
+                        out.append(V('no client packet completed between %d ms and %d ms: gap exceeds the keep-alive of %d ms'
+                                     % (last, now, K), cls))
+                        last = None
+                now = t
+            elif e[0] == 'w':
+                if e[2] is None or e[2] == 0:
+                    tainted = True
+                    cause = 'io'
+                else:
+                    wire += bytes.fromhex(e[3])
+                    frames, tail, err = mqttspec.split_stream(wire[wpos:])
+                    for first, body, raw in frames:
+                        unflushed.append(first >> 4)
+                        wpos += len(raw)
+            elif e[0] == 'f':
+                if e[1] != 'ok':
+                    tainted = True
+                    cause = 'io'
+                else:
+                    if unflushed and not tainted and a.code != 0:
+                        if K > 0 and last is not None and now - last > K:
+                            cls = 'K10' if (K < RTT_MS and outstanding is not None) else None
+                            out.append(V('client packets completed at %d ms and %d ms: gap exceeds the keep-alive of %d ms'
+                                         % (last, now, K), cls))
+                        last = now
+                        if 12 in unflushed:
+                            if K == 0 and live:
+                                out.append(V('PINGREQ sent at %d ms with an effective keep-alive of zero' % now))
+                            outstanding = now
+                    unflushed = []
+            elif e[0] == 'r':
+                if e[2] is None:
+                    if e[3] != 'drop':
+                        cause = 'io'
+                elif e[2] == 0 and e[1] > 0:
+                    cause = 'io'
+                elif e[2]:
+                    inb += bytes.fromhex(e[3])
+                    for first, body in parse_server_packets(inb[ipos:]):
+                        ipos += 1 + len(body) + len(_varint_bytes(len(body)))
+                        if first >> 4 == 13:
+                            outstanding = None
+                        elif first >> 4 == 14 or first >> 4 == 2:
+                            cause = 'packet'
+        st = a.state or {}
+        if 'now' in st and st['now'].isdigit():
+            now = int(st['now'])
+        res = a.result or ''
+        if a.code == 0:
+            if res.startswith('ok'):
+                live = True
+                K = int(st.get('ka', '0')) if st.get('ka', '0').isdigit() else 0
+                last = now
+            else:
+                tainted = True
+        elif a.code in (6, 7) and live and not tainted and res.startswith('err Disconnected') and cause is None:
+            if outstanding is None:
+                out.append(V('poll/recv reports Disconnected at %d ms with no PINGREQ outstanding, no transport fault and '
+                             'no DISCONNECT from the broker' % now))
+            elif now < outstanding + RTT_MS:
+                out.append(V('keep-alive disconnect at %d ms, %d ms after the PINGREQ completed (bound %d ms)'
+                             % (now, now - outstanding, RTT_MS)))
+        if a.code in (4, 10, 11) or st.get('live') == '0':
+            live = False
+            last = None
+            outstanding = None
+        if res.startswith('err') and not res.startswith('err NotReady') and a.code in (1, 2, 3, 5, 6, 7) and st.get('live') == '0':
+            tainted = True
+    return out
